@@ -95,6 +95,10 @@ def run(model, tier="quick"):
                                                              "total_liquidation_threshold"])
     ledgers(res, model, ["borrow", "withdraw", "change_collateral"])
     res.floor("obligations", len(res.obligations), 14)
+    from ..rules.fresh import fresh_rule
+    if "R-FRESH" not in res.rules:
+        res.rules.append("R-FRESH")
+    fresh_rule(model, res, scope=('demeter/aave/',))
     res.assumptions = ["risk parameter table columns are the protocol's (data)"]
     res.not_decided = ["acceptance exactly at the frontier (Decimal rounding at HF = 1)",
                        "that helper amounts are themselves accepted when re-submitted (composition of rounding)"]
